@@ -40,6 +40,9 @@ pub fn builder_for(cfg: &Cfg, seed: u64, tick: Duration) -> turmoil::Builder {
         if let Some(cap) = cfg.capacity {
             f.capacity(cap);
         }
+        if let Some(a) = cfg.dio_align {
+            f.direct_io_alignment(a);
+        }
     }
     b
 }
